@@ -622,7 +622,9 @@ func TestVerif_C03(t *testing.T) {
 		// integer beyond 2^53 (which a float64 rounds to a neighbour): never answered with a block
 		for _, lit := range []string{fmt.Sprintf("%d.5", eA.Truth.Blocks[1].Slot), fmt.Sprintf("%d.25", eA.Truth.Blocks[2].Slot), fmt.Sprintf("%d.9", eA.Truth.Blocks[1].Slot-1), "9007199254740993",
 			// exponent notation: the digits before the exponent are those of a stored slot, the number is another slot
-			fmt.Sprintf("%de1", eA.Truth.Blocks[1].Slot), fmt.Sprintf("%dE2", eA.Truth.Blocks[2].Slot), fmt.Sprintf("%de+1", eA.Truth.Blocks[1].Slot), fmt.Sprintf("%d5e-1", eA.Truth.Blocks[1].Slot)} {
+			fmt.Sprintf("%de1", eA.Truth.Blocks[1].Slot), fmt.Sprintf("%dE2", eA.Truth.Blocks[2].Slot), fmt.Sprintf("%de+1", eA.Truth.Blocks[1].Slot), fmt.Sprintf("%d5e-1", eA.Truth.Blocks[1].Slot),
+			// not integers, but within half an ulp of a stored slot as a float64
+			fmt.Sprintf("%d.00000000001", eA.Truth.Blocks[1].Slot), fmt.Sprintf("%d.99999999999", eA.Truth.Blocks[1].Slot-1), fmt.Sprintf("%d0000000000000000000000001e-25", eA.Truth.Blocks[1].Slot)} {
 			for _, method := range []string{"getBlock", "getBlockTime"} {
 				opts := ""
 				if method == "getBlock" {
